@@ -1,0 +1,22 @@
+//go:build verif
+
+// Contracts for govc (comment-only file; see /verif/DESIGN.md section 3).
+package elgamal
+
+// Both components of the ciphertext are written (C10: the Fiat-Shamir challenge of zkelog depends on L and M).
+//@ func (*Ciphertext).WriteTo
+//@   nopanic[C05]
+//@   requires w != nil && c != nil && c.L != nil && c.M != nil
+//@   ensures[C10,C19] result1 == nil ==> wlog(w) == wcat(wcat(old(wlog(w)), benc(c.L)), benc(c.M))
+
+//@ func (*Ciphertext).Valid
+//@   nopanic[C05]
+//@   modifies nothing
+//@   ensures result ==> c != nil && c.L != nil && c.M != nil
+
+//@ func Empty
+//@   nopanic[C05]
+//@   requires group != nil
+//@   modifies nothing
+//@   allocates
+//@   ensures result != nil && result.L != nil && result.M != nil
